@@ -114,6 +114,148 @@ def intrinsic_doc(rng, k):
     return "\n".join(ls) + "\n"
 
 
+SNIPPETS = [
+    # generic interface reached through a type-bound procedure and an ASSOCIATE name
+    """module snip_gen
+  implicit none
+  interface gen_if
+    module procedure gen_a, gen_b
+  end interface gen_if
+  type :: holder
+    integer :: n
+  contains
+    procedure :: act => gen_if
+    generic :: many => act, gen_if
+  end type holder
+contains
+  subroutine gen_a(self, i)
+    class(holder) :: self
+    integer :: i
+  end subroutine gen_a
+  subroutine gen_b(self, r)
+    class(holder) :: self
+    real :: r
+  end subroutine gen_b
+  subroutine user(h)
+    type(holder) :: h
+    associate (g => gen_if, q => h%act)
+      call g(h, 1)
+      call h%act(1)
+      call h%many(2.0)
+    end associate
+  end subroutine user
+end module snip_gen
+""",
+    # deferred binding whose abstract interface has an undeclared dummy argument
+    """module snip_def
+  implicit none
+  type, abstract :: shape
+  contains
+    procedure(area_if), deferred :: area
+    procedure(area_if), deferred, pass(self) :: perim
+  end type shape
+  abstract interface
+    function area_if(self, scale, extra) result(a)
+      import :: shape
+      class(shape), intent(in) :: self
+      real, intent(in) :: scale
+      real :: a
+    end function area_if
+  end interface
+  type, extends(shape) :: square
+    real :: side
+  end type square
+end module snip_def
+""",
+    # declarations and half-typed attribute lists outside any program unit
+    """integer, p
+real, dimension(3), allo
+type(t), poin
+integer, parameter ::
+character(len=
+use
+""",
+    # INCLUDE of files shorter / longer than the including one, and of a missing file
+    """program snip_inc
+  implicit none
+
+
+
+  include 'snip_short.f90'
+  include "snip_missing.f90"
+  include 'snip_short.f90'
+  integer :: after_inc
+  after_inc = short_var
+end program snip_inc
+""",
+    # select type / enum / block / where / forall / critical / labelled do
+    """module snip_blk
+  implicit none
+  enum, bind(c)
+    enumerator :: red = 1, green
+  end enum
+contains
+  subroutine s(x, a)
+    class(*) :: x
+    real :: a(10)
+    integer :: i
+    select type (y => x)
+    type is (integer)
+      i = y
+    class default
+      i = 0
+    end select
+    blk: block
+      real :: inner
+      inner = a(1)
+    end block blk
+    where (a > 0) a = 1
+    forall (i = 1:10) a(i) = i
+    do 10 i = 1, 3
+10  continue
+    critical
+      a = 0
+    end critical
+  end subroutine s
+end module snip_blk
+""",
+    # procedure pointers, external, interfaces as arguments, operators
+    """module snip_ptr
+  implicit none
+  interface operator(.dot.)
+    module procedure dotp
+  end interface
+  interface assignment(=)
+    module procedure asg
+  end interface
+  procedure(dotp), pointer :: pp => null()
+  external :: ext_fun
+  real :: ext_fun
+contains
+  function dotp(a, b) result(c)
+    real, intent(in) :: a(:), b(:)
+    real :: c
+    c = sum(a * b)
+  end function dotp
+  subroutine asg(l, r)
+    integer, intent(out) :: l
+    logical, intent(in) :: r
+    l = merge(1, 0, r)
+  end subroutine asg
+  subroutine takes(f, g)
+    interface
+      real function f(x)
+        real :: x
+      end function f
+    end interface
+    procedure(dotp) :: g
+    print *, f(1.0), ext_fun(2.0), pp([1.0], [2.0])
+  end subroutine takes
+end module snip_ptr
+""",
+]
+
+
 def structural_edit(rng, lines):
     """edits that make entities vanish, documents shrink, statements half-typed"""
     r = rng.random()
@@ -149,16 +291,31 @@ def gen_sched(g):
     i = g["i"]
     tree = {}
     kindr = rng.random()
-    if kindr < 0.45:
+    if kindr < 0.4:
         gname = rng.choice(sorted(groups()))
         for rel, text in groups()[gname].items():
             tree[f"{ROOT}/{rel}"] = text
         wk = "group:" + gname
-    elif kindr < 0.7:
+    elif kindr < 0.6:
         for j in range(rng.randint(1, 3)):
             tag = gen.rand_ident(rng, 3) + str(j)
             tree[f"{ROOT}/{tag}.f90"] = gen.small_program(rng, tag)
         wk = "generated"
+    elif kindr < 0.8:
+        from .. import progmodel as pm
+
+        ws = pm.new_workspace(rng)
+        for n, t in pm.render_all(ws).items():
+            tree[f"{ROOT}/{n}"] = t
+        wk = "template"
+    elif kindr < 0.9:
+        k = rng.randrange(len(SNIPPETS))
+        tree[f"{ROOT}/snip{k}.f90"] = SNIPPETS[k]
+        tree[f"{ROOT}/snip_short.f90"] = "integer :: short_var\n"
+        if rng.random() < 0.5:
+            k2 = rng.randrange(len(SNIPPETS))
+            tree[f"{ROOT}/snipb{k2}.f90"] = SNIPPETS[k2]
+        wk = f"snippet:{k}"
     else:
         tree[f"{ROOT}/intr.f90"] = intrinsic_doc(rng, i)
         if rng.random() < 0.5:
